@@ -3,7 +3,7 @@ import json, os, random, re
 from . import common as C, pkgfam as P, dirfam as D, c02
 
 PID = "C14"
-THEORY = P.THEORY + ["theories/Format/Roundtrips.v", "theories/Dir/Descr.v", "theories/Dir/Variants.v"]
+THEORY = P.THEORY + ["theories/Format/Roundtrips.v", "theories/Dir/Descr.v", "theories/Dir/Variants.v", "theories/Container/Canon.v"]
 CORPUS = os.path.join(C.VERIF, "corpus")
 
 
@@ -53,12 +53,30 @@ def run(tier, seed, replay=None):
             for l in R.get(e["id"], []):
                 if l.startswith("@model "):
                     f.write(l[len("@model "):] + "\n")
-            f.write("end\n")
+            f.write("canon\nend\n")
     C.run_model(mc, m_out)
     M = C.read_obs(m_out)
     ncorpus, dis = 0, 0
+    STRUCT = {"1": "pack header", "2": "mirrored header at the end of the pack", "3": "container pack header", "4": "pack locator", "5": "manifest header",
+              "6": "pack info", "7": "content pack header", "8": "cluster tail", "9": "directory pack header", "10": "index header"}
+    ncanon = [0]
+
+    def canon_check(cid, lines, body, what, pinned=False):
+        """every structure block must re-serialise (model serialiser) to the bytes it was parsed from"""
+        cl = [l.split(" ") for l in lines if l.startswith("canon ")]
+        for k, t in enumerate(cl):
+                ncanon[0] += 1
+                # files written by the pinned version: the container pack declared a size 5 bytes short (defect D14,
+                # repaired since), so its mirrored header is not where the declared size says; such files still read
+                if pinned and len(t) > 4 and t[2] == "2" and k > 0 and cl[k - 1][2:4] == ["1", "0"] and k + 1 < len(cl) and cl[k + 1][2] == "3":
+                    continue
+                if t[-1] != "ok":
+                    res.violation("C14: in %s %s, the %s at offset %s of %s is not the specified serialisation of what it decodes to" % (
+                        what, cid, STRUCT.get(t[2], "structure") if len(t) > 3 else "file", t[3] if len(t) > 4 else "?", t[1]), body)
+                    return
     for e in idx["entries"]:
         ncorpus += 1
+        canon_check(e["id"], M.get(e["id"], []), "corpus %s\n# run: ./check C14 (the corpus entry is /verif/corpus/%s)\n" % (e["id"], e["id"]), "reference container", pinned=True)
         r = [l for l in R.get(e["id"], []) if l.startswith(("index", "entry"))]
         mm = [l for l in M.get(e["id"], []) if l.startswith(("index", "entry"))]
         comp = set(x.group(1) for l in mm for x in re.finditer(r"(c\d+:\d+)=COMP:", l))
@@ -79,12 +97,13 @@ def run(tier, seed, replay=None):
     for i in range(9 if tier == "quick" else 60):
         pcases.append(dict(id="f%d" % i, pkg=["one", "two", "no"][i % 3], comp=rng.choice(["none", "zstd", "lz4", "lzma"]),
                            n=rng.choice([0, 1, 4, 9]), extra=rng.choice([0, 1, 2]), seed=rng.randint(1, 10**6), ops=[]))
-    rm = P.run_cases(res, pcases, seed)
+    rm = P.run_cases(res, pcases, seed, model_extra=["canon"])
     nfresh = 0
     if rm:
         R2, M2 = rm
         for c in pcases:
             nfresh += 1
+            canon_check(c["id"], M2.get(c["id"] + ".final", []), P.case_text(c, seed), "freshly written container")
             exp = P.expected_std(c["n"], c["extra"], c["seed"], c.get("idgap", 0), c.get("cmax", 0), c.get("orphans", 0))
             mm = [l for l in M2.get(c["id"] + ".final", []) if l.startswith(("index", "entry"))]
             comp = set(x.group(1) for l in mm for x in re.finditer(r"(c\d+:\d+)=COMP:", l))
@@ -114,7 +133,7 @@ def run(tier, seed, replay=None):
     C.sh(["rm", "-rf", tmp])
     res.cov.update({
         "evaluations": ncorpus + nfresh, "distinct_nontrivial": ncorpus + nfresh - 1,
-        "corpus_entries": ncorpus, "fresh_containers": nfresh,
+        "corpus_entries": ncorpus, "fresh_containers": nfresh, "structure_blocks_checked_canonical": ncanon[0],
         "rule": "every file set of the committed reference corpus (35 containers written by the pinned version: 3 packagings x 4 compressions, plain/indexed stores, all property kinds) read by the current reader and by the extracted decoder; "
                 "plus fresh whole containers and directory packs decoded by the extracted decoder and compared with what was written; non-trivial = all but the empty container",
         "samples": ["corpus " + idx["entries"][0]["id"] + " " + str(idx["entries"][0]["expected"][:2]), P.case_text(pcases[0], seed)],
